@@ -672,7 +672,8 @@ pub fn extract_history(cfg: &BerCfg, events: &[Event], report_chan: Option<usize
                     mixin(2, 1);
                 }
             }
-            Ev::Recv { chan, from, seq } if ev.task == 0 => {
+            // the collector may take results by recv() or by polling: both are receptions
+            Ev::Recv { chan, from, seq } | Ev::TryRecvOk { chan, from, seq } if ev.task == 0 && results_of.contains_key(chan) => {
                 if let (Some(&e), Some(&(_, w))) = (results_of.get(chan), task_role.get(from)) {
                     points[e].recvs.push((w, *seq));
                     mixin(4, w as u64);
